@@ -7,7 +7,7 @@
    is now (after the fix commits e8e73fb and be0b187). *)
 From Coq Require Import List NArith ZArith Bool Arith.
 From GD Require Import C08.Token C08.TokSpec C08.TokLemmas C08.TokBounds C08.TokAgree
-  C08.Standards Gen.Gates C08.GatesDefs C08.GatesProofs C08.Names C08.NamesProofs C08.LitSpec C08.Literal C08.LitProofs.
+  C08.Standards Gen.Gates C08.GatesDefs C08.GatesProofs C08.Names C08.NamesProofs C08.LitSpec C08.Literal C08.LitProofs C08.Callback.
 Import ListNotations.
 Open Scope N_scope.
 
@@ -117,3 +117,25 @@ Proof. exact negative_overflow_sign_flip. Qed.
 Example literal_rule_region_inhabited :
   parts_nonempty [49; 59; 50] /\ parts_in_range (fun _ => false) [49; 59; 50].
 Proof. split; vm_compute; repeat split; discriminate. Qed.
+
+(* ---- the syntax-error callback protocol (gd_cbopen(3)); Callback.v models the
+   loop of _GD_ParseFragment around D->sehandler ---- *)
+(* GD_SYNTAX_CONTINUE throughout: every bad line is reported, parsing runs to
+   the end, and the error finally set is that of the FIRST bad line *)
+Theorem continue_keeps_first_error : forall cb ls,
+  (forall k, cb k = CONTINUE) ->
+  fragment_run cb ls =
+  (all_bad_from 1 ls, match first_bad_from 1 ls with Some s => Some (inl s) | None => None end).
+Proof. exact continue_keeps_first_error_lemma. Qed.
+
+(* GD_SYNTAX_IGNORE throughout: every bad line is reported and no error remains *)
+Theorem ignore_reports_all : forall cb ls,
+  (forall k, cb k = IGNORE) -> fragment_run cb ls = (all_bad_from 1 ls, None).
+Proof. exact ignore_reports_all_lemma. Qed.
+
+(* GD_SYNTAX_ABORT (and no callback at all): parsing stops at the first bad line *)
+Theorem abort_stops_at_first : forall cb ls,
+  cb 0%nat = ABORT ->
+  fragment_run cb ls =
+  match first_bad_from 1 ls with Some s => ([s], Some (inl s)) | None => ([], None) end.
+Proof. exact abort_stops_at_first_lemma. Qed.
